@@ -199,10 +199,18 @@ where
                     if remaining < FLAGS_LEN {
                         break Ok(None);
                     }
-                    let flags = FrameFlags::from_bits_truncate(src.get_u8());
+                    let flags = FrameFlags::from_bits(src.get_u8()).ok_or_else(bad_flags)?;
                     if flags.contains(FrameFlags::REGISTRATION) {
+                        if flags
+                            .intersects(FrameFlags::REGISTERED | FrameFlags::OVERWRITE_PERMITTED)
+                        {
+                            break Err(bad_flags());
+                        }
                         *state = DecoderState::ReadingRegistration(flags);
                     } else if flags.contains(FrameFlags::REGISTERED) {
+                        if flags.contains(FrameFlags::HAS_HOST) {
+                            break Err(bad_flags());
+                        }
                         *state = DecoderState::ReadingRegisteredHeader(flags);
                     } else {
                         *state = DecoderState::ReadingAddressedHeader(flags);
@@ -337,6 +345,12 @@ where
             }
         }
     }
+}
+
+fn bad_flags() -> FrameIoError {
+    FrameIoError::BadFrame(swimos_api::error::InvalidFrame::InvalidHeader {
+        problem: Text::new("Ad-hoc message header contained invalid flags."),
+    })
 }
 
 fn total_len(lens: &[usize]) -> Result<usize, FrameIoError> {
